@@ -175,7 +175,7 @@ CHECKS = {
              "non-trivial = the value has a non-empty container; distinct by (type signature, encoded size)",
         technique="property-based testing (rapid): MemStats.Mallocs delta over 64 calls after two warm-up calls (AllocsPerRun discipline) in a single-goroutine GOMAXPROCS=1 worker with GC disabled",
         level_text="For every generated (type, value) EncodedSize(&v) and EncodeObject(buf, nil, &v) with a buffer of size+64 are each called 64 times after two warm-ups; the Mallocs delta divided by 64 must be 0 (a non-zero result is re-measured once).",
-        level_note="Escape analysis is toolchain dependent: decided for go1.23.5 only.",
+        level_note="Escape analysis is toolchain dependent: decided for go1.23.5 only. The one-shot mode (first use with an all-empty value, then one EncodedSize+EncodeObject on the populated value) walks the value once without frugal before counting, because the Go runtime itself allocates once per map value when a pointer-free map is first iterated; a non-zero count is a violation only when two fresh processes confirm it.",
     ),
     "C06": dict(
         test="TestC06",
